@@ -19,6 +19,7 @@ import (
 	"bytes"
 	"errors"
 	"fmt"
+	"math"
 	"reflect"
 	"sort"
 	"sync"
@@ -1681,6 +1682,9 @@ func (r *RIBHolder) DeleteMPLS(e *aftpb.Afts_LabelEntryKey) (bool, *aft.Afts_Lab
 		return false, nil, fmt.Errorf("unsupported label type %T, only uint64 labels are supported, %v", e, e)
 	}
 
+	if e.GetLabelUint64() > math.MaxUint32 {
+		return false, nil, fmt.Errorf("invalid label %d, out of range", e.GetLabelUint64())
+	}
 	lbl := uint32(e.GetLabelUint64())
 
 	de := r.retrieveMPLS(lbl)
